@@ -32,6 +32,9 @@ pub enum FrameSpec {
     Short(u8, u8),
     /// a variable-text packet (MSO / III / ACR / MTC / BTN) whose text fills the frame completely, without a NUL
     UnterminatedText(u8, u8),
+    /// a frame that announces more bytes than its header's kind has: (type, request id, fourth byte, extra 4-byte words).
+    /// With (3, 0, 0, k) it *starts* like a keep-alive, but is a k+1 word frame: only the size byte says where it ends.
+    Long(u8, u8, u8, u8),
 }
 
 pub fn size_byte(mode: &Mode, len: usize) -> u8 {
@@ -103,6 +106,15 @@ pub fn frame_bytes(f: &FrameSpec, mode: &Mode) -> Vec<u8> {
             }
             v
         },
+        FrameSpec::Long(ty, reqi, fourth, extra) => {
+            let words = 2 + (*extra as usize % 3);
+            let mut v = vec![size_byte(mode, 4 * words), *ty, *reqi, *fourth];
+            for i in 4..4 * words {
+                // the tail looks like frames of its own: [1|4, 3, n, 3] (a TINY_PING in either size mode)
+                v.push([size_byte(mode, 4), 3, i as u8, 3][i % 4]);
+            }
+            v
+        },
         FrameSpec::Big(fill) => {
             let len = match mode {
                 Mode::Compressed => 1020,
@@ -128,6 +140,8 @@ pub fn frame_strategy(keepalive_weight: u32, ver_weight: u32) -> impl Strategy<V
         1 => any::<u8>().prop_map(FrameSpec::Big),
         2 => (any::<u8>(), any::<u8>()).prop_map(|(a, b)| FrameSpec::Short(a, b)),
         2 => (any::<u8>(), any::<u8>()).prop_map(|(a, b)| FrameSpec::UnterminatedText(a, b)),
+        2 => (prop_oneof![3 => Just(3u8), 1 => Just(4u8), 1 => Just(2u8), 1 => any::<u8>()], prop_oneof![3 => Just(0u8), 1 => any::<u8>()], prop_oneof![3 => Just(0u8), 1 => any::<u8>()], any::<u8>())
+            .prop_map(|(a, b, c, d)| FrameSpec::Long(a, b, c, d)),
     ]
 }
 
